@@ -19,7 +19,7 @@ RULE = (
     "non-trivial = invocation in which some pilot is limited below the EVSE maximum by a constraint, the remaining demand or the estimator"
 )
 ASSUMPTIONS = [
-    "default network tolerances (the algorithms hard-code them); deadband EVSEs excluded as the property says; round-robin increment 1 A",
+    "default network tolerances (the algorithms hard-code them); deadband EVSEs excluded as the property says; round-robin increment 1 A (plus a block with 0.5 A and 2.5 A)",
     "true remaining demand is read from the harness-held EV objects",
     "extra blocks: a rampdown estimator without upward probing (bound can be exactly 0 A) with batteries that fill before the request is met; a network with an EVSE without maximum rate; two run() stages with the last-added constraint tightened in between",
     "small scope: 3 stations, <=3 sessions, <=6 periods",
@@ -32,7 +32,7 @@ def bounds(tier, seed):
 
 
 def space(tier, seed):
-    return list(A.scenarios(tier, ["N2", "N5", "N7"])) + list(A.extra_scenarios(tier))
+    return list(A.scenarios(tier, ["N2", "N5", "N7"])) + list(A.extra_scenarios(tier)) + list(A.inc_scenarios(tier))
 
 
 def check(scn, tr, out):
